@@ -44,6 +44,15 @@ CLAIMS = {
  "C12": ("stateful property-based testing: C04 histories with neg/clear inserted, checked against the exact model after every step and on the final state (from_bits/to_bits, neg, split, clear); complete posit->quire->posit round trip for P8/P16 (P32 in thorough)",
          "Round trip, negation, clear, bit round trip and the two/three-posit residual split are compared with exact dyadic arithmetic on every state reached by generated histories.",
          "DESIGN.md section 6, C12"),
+ "C13": ("property-based testing: complete enumeration for small widths (all pairs N <= 8, all triples N <= 6) + proptest triples (bits x relation, tie-directed, result-directed) for every N in 2..=32 and both exponent sizes, exact dyadic oracle at width N; cross-type differential PxE2<32> == P32E2, PxE1<16> == P16E1",
+         "+ - * / (operator and op-assign), mul_add, mul_sub, sub_product, sqrt, round of PxE1<N>/PxE2<N> compared bit-for-bit (incl. zero low bits) with the exact result rounded to an N-bit posit for all 31 widths and both families; widths up to 8 decided completely.",
+         "DESIGN.md section 6, C13"),
+ "C14": ("property-based testing: complete enumeration of P8/P16 sources and of generic sources up to N = 12, proptest sources with target-threshold lattices for every N in 2..=32, both families, 341 (M,N) width pairs for generic<->generic, quire histories for Q32E2 -> PxE2<N>; exact oracle",
+         "Every conversion to and from PxE1<N>/PxE2<N> (floats, fixed-width posits, integers, other generic widths / exponent sizes, Q32E2) through inherent and From spellings compared with exact-or-correctly-rounded expectations.",
+         "DESIGN.md section 6, C14"),
+ "C16": ("differential property-based testing between two builds of the same sources (overflow-checked vs plain optimised, worker process) + totality under panic capture and a watchdog; proptest inputs with specials for 1799 registered operations",
+         "Each registered public operation is run on generated inputs in an overflow-checked build (no panic allowed except the committed todo!() stub table; watchdog for non-termination) and the optimised build must return identical bits.",
+         "DESIGN.md section 6, C16"),
  "C15": ("property-based testing: strided complete scan of each unary function's domain (stride 256 quick / 8 thorough, offset from the seed) + proptest boundary inputs and pairs; oracle = minimum encoding distance to the posit roundings of a widened libm interval",
          "The crate's answer for every generated/enumerated in-domain argument must lie within the stated number of encodings of the correctly rounded value (reference error can only hide, never create, a violation); NaR and out-of-domain clauses are asserted exactly. The evidence carries the full ulp-error histogram per function.",
          "DESIGN.md section 6, C15"),
